@@ -97,3 +97,10 @@ impl Deque {
         }
     }
 }
+
+#[cfg(feature = "verif-hooks")]
+impl<T> Buffer<T> {
+    pub fn verif_len(&self) -> usize {
+        self.slab.len()
+    }
+}
